@@ -66,7 +66,7 @@ Section Law.
         (bind (pop l (match oi with Some i => i | None => -1 end)) (fun p => Ok (snd p, Some (fst p))), [])
     | Remove v => (lift (remove Z.eqb l v), [])          (* the value to remove is not validated (documented) *)
     | Reverse => (Ok (rev l, None), [])
-    | Sort r => (Ok (sort Z.leb r l, None), [])
+    | Sort m r => (Ok (sort (key_leb m) r l, None), [])
     | Clear => (Ok ([], None), [])
     end.
 
